@@ -668,7 +668,7 @@ def pl_equiv_case(v, arrangement, N, opts):
     arr = [(c, kinds[c]) for c in arrangement]
     # pandas int64 columns cannot hold nulls: int columns are null-free on both sides
     pdf = v.frame(arr, N)
-    pldf = v.plframe([(c, k, k != "int") for c, k in arr], N)
+    pldf = v.plframe([(c, k, k != "int") for c, k in arr], N, missing_as_nan=bool(opts.get("missing_as_nan")))
     lo = v.int("aA")
     nullable, unique_a = v.bool("nullable"), v.bool("unique_a")
     req_b = True if opts.get("b_required_concrete", True) else v.bool("req_b")
@@ -691,13 +691,13 @@ def pl_equiv_case(v, arrangement, N, opts):
     facts = dict(pandas=o_pd["kind"], polars=o_pl["kind"], reason_pd=o_pd.get("reason"), reason_pl=o_pl.get("reason"), _msg=o_pl.get("msg"))
     asserts = [("backend_equiv/schema_verdict", v.holds((o_pd["kind"] == "accept") == (o_pl["kind"] == "accept")))]
     if o_pd["kind"] == "accept" and o_pl["kind"] == "accept":
-        asserts.append(("backend_equiv/parsed_table", _tables_equal(v, o_pd["out"], o_pl["out"], N)))
+        asserts.append(("backend_equiv/parsed_table", _tables_equal(v, o_pd["out"], o_pl["out"], N, nan_is_missing=bool(opts.get("missing_as_nan")))))
     if lazy and o_pd["kind"] == "SchemaErrors" and o_pl["kind"] == "SchemaErrors":
         asserts.append(("backend_equiv/failing_cells", _failing_cells_equal(v, o_pd["fc"], o_pl["fc"], N)))
     return dict(obs=None, asserts=asserts, facts=facts)
 
 
-def _tables_equal(v, a, b, N):
+def _tables_equal(v, a, b, N, nan_is_missing=False):
     """pandas result vs polars result: same columns in the same order, same rows, same cells (null = null; numbers by value)"""
     import pandas as real_pd
 
@@ -712,6 +712,9 @@ def _tables_equal(v, a, b, N):
         for i in range(len(a.present)):
             terms.append(a.present[i] == b.present[i])
             for (_, ca_), (_, cb_) in zip(acols, bcols):
+                if nan_is_missing and cb_.nans is not None:
+                    terms.append(z3.Implies(a.present[i], _cell_eq(ca_.vals[i], ca_.nulls[i], None, cb_.vals[i], z3.Or(cb_.nulls[i], cb_.nans[i]), None)))
+                    continue
                 terms.append(z3.Implies(a.present[i], _cell_eq(ca_.vals[i], ca_.nulls[i], None, cb_.vals[i], cb_.nulls[i], None if cb_.nans is None else cb_.nans[i])))
         return v.holds(z3.And(*terms) if terms else T)
     if isinstance(a, real_pd.DataFrame) and isinstance(b, (real_pl.DataFrame, real_pl.LazyFrame)):
@@ -783,7 +786,7 @@ def equiv_cases(tier):
                     o = dict(strict=strict, ordered=ordered, b_required_concrete=False)
                     out.append((_tid("EQ", arr, N, o), pl_equiv_case, (arr, N, o)))
         for o in (dict(unique=["a", "b"]), dict(lazy=True), dict(lazy=True, unique=["a", "b"]), dict(coerce="col", a_kind="int"), dict(default=True),
-                  dict(check_a="le"), dict(check_a="ne", lazy=True)):
+                  dict(check_a="le"), dict(check_a="ne", lazy=True), dict(missing_as_nan=True), dict(missing_as_nan=True, default=True)):
             out.append((_tid("EQ", ["a", "b"], N, o), pl_equiv_case, (["a", "b"], N, o)))
         out.append((_tid("EQ", ["a"], N, dict(add_missing=True)), pl_equiv_case, (["a"], N, dict(add_missing=True))))
         out.append((_tid("EQ", ["b", "a"], N, dict(strict="filter")), pl_equiv_case, (["x", "b", "a"], N, dict(strict="filter"))))
